@@ -285,7 +285,8 @@ PROPS["C17"] = {
                  "C17_utf8_helper_never_out_of_fuel", "C17_single_byte_helper_never_out_of_fuel",
                  "C17_every_scalar_value_encodes_to_a_character", "C17_utf8_round_trip", "C17_utf16_round_trip",
                  "C17_modelled_codecs_one_char_per_byte_at_most", "C17_single_byte_closed_form_is_the_helper",
-                 "C17_utf16_helper_never_out_of_fuel"],
+                 "C17_utf16_helper_never_out_of_fuel", "C17_automaton_accepts_only_scalar_encodings",
+                 "C17_utf8_decoding_is_the_exact_inverse_of_encoding", "C17_modelled_codecs_emit_scalar_values"],
     "model_targets": ["Model/Decode.vo"],
     "runs": [{"level": "decode", "args_quick": ["--n", "1500"], "args_thorough": ["--n", "60000"]}],
     "search": {"level": "decode", "args": ["--n", "12000"]},
@@ -368,7 +369,8 @@ PROPS["C14"] = {
 
 PROPS["C15"] = {
     "module": "PropC15",
-    "theorems": ["C15_no_normalize_no_change", "C15_inputs_unchanged", "C15_unrelated_paths_unchanged", "C15_every_write", "C15_sibling_name"],
+    "theorems": ["C15_no_normalize_no_change", "C15_inputs_unchanged", "C15_unrelated_paths_unchanged", "C15_every_write", "C15_sibling_name",
+                 "C15_written_file_is_the_utf8_form_of_the_strict_decode"],
     "model_targets": ["Model/Cli.vo"],
     "needs_cli": True,
     "runs": [CLI_RUN],
